@@ -61,7 +61,7 @@ def oracle(case, stats):
     # how many planted copies the reference itself classifies clear-in (measures the generator, not mofun)
     n = len(case["ppos"])
     for c in copies:
-        key = tuple(sorted(range(c["start"], c["start"] + n)))
+        key = tuple(sorted(c["idx"]))
         stats.count("planted-copy-is:%s" % (groups[key]["cls"] if key in groups else "out"))
     nt = len(IN) >= 1 and (any(c["crossings"] > 0 for c in copies) or len(copies) >= 2 or bool(meta.get("decoys")))
     classify_case(case, len(idx), stats, nt=bool(nt))
